@@ -51,6 +51,7 @@ EdgeShapes(level, mode) ==
     LET ns == IF mode = "M" THEN NodeShapes ELSE DocShapes IN
     IF level = "c" THEN {EdgeDiff(IF x = Absent THEN Absent ELSE ClsEntry(x, Absent)) : x \in ns}
     ELSE {EdgeDiff(Absent)} \cup {EdgeDiff(ClsEntry(DefaultNode, x)) : x \in ns \ {Absent}}
+FewEdgeShapes == {EdgeDiff(Absent), EdgeDiff(ClsEntry(DNode(<<NoVal, "a">>, ActNone), Absent)), EdgeDiff(ClsEntry(DNode(<<"a", "c">>, ActNone), Absent))}
 RootShapes(level) ==
     IF level = "c" THEN {[cls |-> Absent], [cls |-> [name |-> "a", doc |-> "a", fld |-> Absent]]}
     ELSE {[cls |-> Absent], [cls |-> [name |-> "k", doc |-> NoVal, fld |-> Absent]], [cls |-> [name |-> "k", doc |-> NoVal, fld |-> MEntry("a", "a")]]}
@@ -76,11 +77,13 @@ DrawGraph ==
           /\ v <= g[1]
           /\ (lm # <<"c", "M">> => d \in {"None", "Both"})              \* the reduced product for the other levels / the comment
           /\ (lm # <<"c", "M">> /\ Tier = 0 => Cardinality(g[2]) <= 2)
+          /\ (g[1] = 4 => lm = <<"c", "M">>)                            \* the four-version shapes: class names only
           /\ item' = [g |-> g, v |-> v, d |-> d, lm |-> lm]
     /\ stage' = "content" /\ UNCHANGED <<fam, W, s, canon>>
 DrawContent ==
     /\ stage = "content"
-    /\ \E ch \in Changes(item.lm[2]), rm \in RootShapes(item.lm[1]), diff \in [item.g[2] -> EdgeShapes(item.lm[1], item.lm[2])] :
+    /\ \E ch \in Changes(item.lm[2]), rm \in RootShapes(item.lm[1]),
+          diff \in [item.g[2] -> IF item.g[1] = 4 THEN FewEdgeShapes ELSE EdgeShapes(item.lm[1], item.lm[2])] :
           /\ W' = World(item.g, item.v, item.d, item.lm, ch, rm, diff)
           /\ s' = S0(W')
     /\ stage' = "run" /\ UNCHANGED <<fam, canon, item>>
